@@ -65,7 +65,7 @@ def run(ctx, replay=None):
         futs = [ex.submit(C.run_impl, "c02", [list(c) for c in g], None if k < n_compiled_groups else {"NUMBA_DISABLE_JIT": "1"}, 2400)
                 for k, g in enumerate(groups)]
         if model_only is not None or not replay:
-            f_model = ex.submit(c02_model.run, ctx, 48 if ctx.quick else 240, 24 if ctx.quick else 120, model_only)
+            f_model = ex.submit(c02_model.run, ctx, 96 if ctx.quick else 480, 54 if ctx.quick else 270, model_only)
             _, deferred = f_model.result()
         else:
             deferred = None
